@@ -20,3 +20,4 @@ def run(ck):
     filt.r12_param_block_validated(ck, P, 'C04-R12')   # the fetchers read the kernel out of the library's own copy of the block
     geometry.r13_empty_image_never_repeated(ck, P)
     geometry.r14_hull_needs_constant_sign_of_w(ck, P)
+    geometry.r15_empty_image_not_addressed_directly(ck, P)
